@@ -29,6 +29,7 @@ type globalInfo struct {
 	cells      []globalCell // from the AST initialiser (nil if none)
 	isSlice    bool
 	sliceLen   int64
+	initExpr   ast.Expr // the whole initialiser expression
 }
 
 type globalCell struct {
@@ -164,6 +165,7 @@ func (l *Loaded) globalInfoOf(g *ssa.Global) *globalInfo {
 					}
 					for i, n := range vs.Names {
 						if pkg.TypesInfo.Defs[n] == obj && i < len(vs.Values) {
+							gi.initExpr = vs.Values[i]
 							gi.collectInit(l, pkg.TypesInfo, vs.Values[i], obj.Type(), addCand)
 						}
 					}
@@ -287,6 +289,17 @@ func (tr *Translator) globalInitFacts(key string, sym Sx) {
 		return
 	}
 	gi := tr.l.globalInfoOf(g)
+	if gi.immutable && key == "G:"+shortGlobal(g) {
+		// var errX = errors.New(...) / fmt.Errorf(...), never reassigned: a non-nil error
+		if call, ok := gi.initExpr.(*ast.CallExpr); ok {
+			if se, ok := call.Fun.(*ast.SelectorExpr); ok {
+				if id, ok := se.X.(*ast.Ident); ok && ((id.Name == "errors" && se.Sel.Name == "New") || (id.Name == "fmt" && se.Sel.Name == "Errorf")) {
+					tr.c.axiom(sym, not(eq(sym, "ifc_nil")))
+					tr.c.note(fmt.Sprintf("package-level error value %s is initialised by errors.New/fmt.Errorf and never reassigned (static scan): non-nil", shortGlobal(g)))
+				}
+			}
+		}
+	}
 	if !gi.immutable || len(gi.cells) == 0 {
 		return
 	}
